@@ -238,7 +238,10 @@ def render(items, rng, kinds):
     lines = []
     i = 0
     comments = ['; plain comment', ';', ';; nop ldi 5', '; "quoted" text: with colon', ';\ttabbed', '; label: .byte 1',
-                '; a.k.a. "sixpenny"', "; it's 5\" long", '; one " only', "; one ' only"]
+                '; a.k.a. "sixpenny"', "; it's 5\" long", '; one " only', "; one ' only",
+                # characters some text tools take for line ends (form feed, vertical tab, separators, NEL, U+2028): inside a
+                # comment they are comment text, and a line ends at its line feed only
+                '; page\x0cnop', '; vt\x0bldi 5', '; fs\x1cgs\x1drs\x1e .byte 1', '; nel\x85nop', '; ls\u2028jmp 1', '; ps\u2029 .byte 9']
     while i < len(items):
         it = items[i]
         if 'blank-lines' in K and rng.random() < 0.25:
@@ -318,7 +321,8 @@ class C18(core.Check):
                         'upper-register-in-brackets': 3, 'upper-register-indexed': 3, 'label-contains-mnemonic': 3,
                         'joined>=2': 3, 'joined>=3': 3, 'label-in-front-of-local-reference': 3, 'corpus-example': 3, 'preprocessor-lines': 3, 'tab-after-directive-keyword': 3, 'quote-in-comment-after-quoted-statement': 3,
                         'include-line': 3, 'include-line:trailing-comments': 3,
-                        'symbol-use-between-two-quoted-characters-on-one-line': 3}
+                        'symbol-use-between-two-quoted-characters-on-one-line': 3,
+                        'comment-with-a-character-some-tools-take-for-a-line-end': 3}
 
     def corpus_cases(self, tier, seed):
         import os
@@ -424,6 +428,8 @@ class C18(core.Check):
                     t.add('label-in-front-of-local-reference')
                 if re.search(r'^[^;\n]*["\'][^\n]*;[^\n]*["\']', src, re.M) and 'trailing-comments' in ks:
                     t.add('quote-in-comment-after-quoted-statement')
+                if re.search('[\x0b\x0c\x1c-\x1e\x85\u2028\u2029]', src):
+                    t.add('comment-with-a-character-some-tools-take-for-a-line-end')
                 if 'join-instructions' in ks and re.search(r"'.'[^\n;]*\bLIM_X\b[^\n;]*'.'", src):
                     t.add('symbol-use-between-two-quoted-characters-on-one-line')
                 if 'join-instructions' in ks:
